@@ -290,7 +290,7 @@ func TestCheck(t *testing.T) {
 	for i := range sts {
 		sts[i] = &state{ms: move.NewStore(), hst: stack.New[heur.StackMove](), lc: ev.NewLocal()}
 	}
-	npos := r.N(6000, 120000)
+	npos := r.N(40000, 400000)
 	nrand := r.N(256, 4096)
 	ev.Parallel(npos, func(wk, i int) {
 		s := sts[wk]
